@@ -3,6 +3,7 @@
 //   1. every hostile payload, for every preset name, ends with status 0 (the harness maps a non-zero status / a panic to Err);
 //   2. a payload that names ONLY files outside the repository must behave like a payload that names no file the repository
 //      contains ("ignoring files that belong to no repository"): it must not hand the person's uncheckpointed work to the agent;
+//   (on /repo e257841a cases 1, 2, 3b, 4 pass; case 3 = observation ckptcmd-2 still fails)
 //   3. a file inside a NESTED other repository (an independent clone below the work tree) belongs to THAT repository: the edit
 //      must not be recorded in the outer repository, and should be recorded in the nested one;
 //   4. control: an ordinary payload records the agent's lines.
